@@ -39,10 +39,19 @@ def next_event(inst, rd, secs=5.0):
     return e, 'err'
 
 
-def read_all_events(inst, data, encoding, bc, blocked, limit=100000, style=0):
+def read_all_events(inst, data, encoding, bc, blocked, limit=100000, style=0, path=None):
     """style 0: next() calls; 1: next() for the first record, then a for loop; 2: a for loop left with break after the
     first record and resumed with a second for loop; 3: one for loop"""
-    rd = mciipm.IpmReader(io.BytesIO(data), encoding=encoding, iso_config=bc, blocked=blocked)
+    fh = open(path, 'rb') if path else None          # a real file on disk instead of io.BytesIO
+    try:
+        return _read_all(inst, fh or io.BytesIO(data), encoding, bc, blocked, limit, style)
+    finally:
+        if fh:
+            fh.close()
+
+
+def _read_all(inst, fobj, encoding, bc, blocked, limit, style):
+    rd = mciipm.IpmReader(fobj, encoding=encoding, iso_config=bc, blocked=blocked)
     out = []
     if style == 0:
         for _ in range(limit):
